@@ -173,7 +173,7 @@ def ev(node, env):
         return lambda *args, _n=node, _env=env: ev(_n.body, dict(_env, **dict(zip(params, args))))
     if isinstance(node, ast.Call) and isinstance(node.func, ast.Lambda):
         return ev(node.func, env)(*[ev(a, env) for a in node.args])
-    if isinstance(node, ast.Call) and isinstance(node.func, ast.Attribute) and node.func.attr in ('get', 'startswith', 'endswith', 'keys', 'values', 'items', 'isdigit', 'copy', 'split', 'replace', 'strip', 'lower', 'upper', 'casefold', 'join', 'count') \
+    if isinstance(node, ast.Call) and isinstance(node.func, ast.Attribute) and node.func.attr in ('get', 'startswith', 'endswith', 'keys', 'values', 'items', 'isdigit', 'copy', 'split', 'rsplit', 'replace', 'strip', 'lower', 'upper', 'casefold', 'join', 'count', 'isalpha', 'isalnum') \
             and u(node.func) not in env and u(node.func) not in BUILTINS:
         recv = ev(node.func.value, env)
         if isinstance(recv, (dict, str)):
@@ -247,6 +247,21 @@ def run_stmts(stmts, env):
                 env['{}.{}'.format(dst, kw.arg)] = ev(kw.value, env)
         elif isinstance(st, ast.Assign) and len(st.targets) == 1 and isinstance(st.targets[0], ast.Name):
             env[st.targets[0].id] = ev(st.value, env)
+        elif isinstance(st, ast.Assign) and len(st.targets) == 1 and isinstance(st.targets[0], ast.Tuple) \
+                and sum(isinstance(e, ast.Starred) for e in st.targets[0].elts) == 1 \
+                and all(isinstance(e, ast.Name) or (isinstance(e, ast.Starred) and isinstance(e.value, ast.Name)) for e in st.targets[0].elts):
+            # a, *rest = value  /  *front, last = value
+            vals = list(ev(st.value, env))
+            elts = st.targets[0].elts
+            k = next(i for i, e in enumerate(elts) if isinstance(e, ast.Starred))
+            after = len(elts) - k - 1
+            if len(vals) < len(elts) - 1:
+                raise Unsupported('unpacking arity')
+            for e, v in zip(elts[:k], vals[:k]):
+                env[e.id] = v
+            env[elts[k].value.id] = vals[k:len(vals) - after]
+            for e, v in zip(elts[k + 1:], vals[len(vals) - after:]):
+                env[e.id] = v
         elif isinstance(st, ast.Assign) and len(st.targets) == 1 and isinstance(st.targets[0], ast.Tuple) \
                 and all(isinstance(e, ast.Name) for e in st.targets[0].elts):
             vals = tuple(ev(st.value, env))
